@@ -17,19 +17,22 @@ ASSUME TLCSet(1, ndJsonDeserialize(IOEnv.VERIF_IN))
 Events == TLCGet(1)
 N == Len(Events)
 
-VARIABLES l, blen, cur, verdict
-Init == l = 1 /\ blen = 0 /\ cur = -1 /\ verdict = "running"
+VARIABLES l, blen, cur, need, verdict
+Init == l = 1 /\ blen = 0 /\ cur = -1 /\ need = 0 /\ verdict = "running"
 
-(* expected outcome and next state for one event: [k, e, blen, cur] *)
+(* expected outcome and next state for one event: [k, e, blen, cur, need].  `need' is the total size declared by the message being *)
+(* defragmented (its first fragment carries the 4-byte header: ev.decl); completion = the buffer reaches it                          *)
 StepLen(ev) ==
-  CASE ev.op = "reset" -> [k |-> "ok", e |-> "", blen |-> 0, cur |-> -1]
-    [] ev.op = "nocopy" /\ cur # -1 -> [k |-> "fail", e |-> "NonEmpty", blen |-> blen, cur |-> cur]
-    [] ev.op = "nocopy" -> [k |-> "ok", e |-> "", blen |-> blen, cur |-> cur]          \* 00 00 00 00 = HelloRequest
-    [] cur = -1 /\ ev.len = 4 -> [k |-> "ok", e |-> "", blen |-> blen, cur |-> cur]      \* HelloRequest parses on its own
-    [] cur = -1 -> [k |-> "inc", e |-> "", blen |-> ev.len, cur |-> ev.ct]               \* First_StartDefrag
-    [] ev.ct # cur -> [k |-> "err", e |-> "Tag", blen |-> blen, cur |-> cur]
-    [] blen + ev.len >= MaxRecordData -> [k |-> "err", e |-> "TooLarge", blen |-> blen, cur |-> cur]
-    [] OTHER -> [k |-> "inc", e |-> "", blen |-> blen + ev.len, cur |-> cur]              \* still shorter than Declared
+  CASE ev.op = "reset" -> [k |-> "ok", e |-> "", blen |-> 0, cur |-> -1, need |-> 0]
+    [] ev.op = "nocopy" /\ cur # -1 -> [k |-> "fail", e |-> "NonEmpty", blen |-> blen, cur |-> cur, need |-> need]
+    [] ev.op = "nocopy" -> [k |-> "ok", e |-> "", blen |-> blen, cur |-> cur, need |-> need]          \* 00 00 00 00 = HelloRequest
+    [] cur = -1 /\ ev.ct \in {20, 21} -> [k |-> "ok", e |-> "", blen |-> blen, cur |-> cur, need |-> need]   \* parsed without copy
+    [] cur = -1 /\ ev.decl > 0 /\ ev.len >= ev.decl -> [k |-> "ok", e |-> "", blen |-> blen, cur |-> cur, need |-> need]  \* whole on its own
+    [] cur = -1 -> [k |-> "inc", e |-> "", blen |-> ev.len, cur |-> ev.ct, need |-> IF ev.decl > 0 THEN ev.decl ELSE Declared]  \* First_StartDefrag
+    [] ev.ct # cur -> [k |-> "err", e |-> "Tag", blen |-> blen, cur |-> cur, need |-> need]
+    [] blen + ev.len >= MaxRecordData -> [k |-> "err", e |-> "TooLarge", blen |-> blen, cur |-> cur, need |-> need]
+    [] blen + ev.len >= need -> [k |-> "ok", e |-> "", blen |-> blen + ev.len, cur |-> -1, need |-> 0]     \* Cont_Complete (buffer kept)
+    [] OTHER -> [k |-> "inc", e |-> "", blen |-> blen + ev.len, cur |-> cur, need |-> need]                \* Cont_NeedMore
 
 Explains(x, ev) ==
   /\ ev.k = x.k /\ (x.k \in {"err", "fail"} => ev.e = x.e)
@@ -41,17 +44,17 @@ Next ==
   /\ verdict = "running" /\ l <= N
   /\ LET x == StepLen(Events[l]) IN
      IF Explains(x, Events[l])
-     THEN /\ blen' = x.blen /\ cur' = x.cur /\ l' = l + 1
+     THEN /\ blen' = x.blen /\ cur' = x.cur /\ need' = x.need /\ l' = l + 1
           /\ verdict' = IF l = N THEN "accepted" ELSE "running"
-     ELSE /\ verdict' = "rejected" /\ UNCHANGED <<l, blen, cur>>
+     ELSE /\ verdict' = "rejected" /\ UNCHANGED <<l, blen, cur, need>>
 
 (* the property's clause, at the real constant *)
-BufferBound == blen < MaxRecordData /\ blen + 0 < Declared
+BufferBound == blen < MaxRecordData /\ blen + 0 < Declared /\ (cur # -1 => blen < need)
 (* the limit is actually exercised by the stream (no vacuity) *)
 Exercised == verdict = "accepted" => \E j \in 1..N : Events[j].e = "TooLarge"
 
 Report ==
   verdict # "running" =>
-    Serialize(ToJson([verdict |-> verdict, at |-> l, expected |-> IF l <= N THEN StepLen(Events[l]) ELSE [k |-> "", e |-> "", blen |-> 0, cur |-> 0]]) \o "\n",
+    Serialize(ToJson([verdict |-> verdict, at |-> l, expected |-> IF l <= N THEN StepLen(Events[l]) ELSE [k |-> "", e |-> "", blen |-> 0, cur |-> 0, need |-> 0]]) \o "\n",
               IOEnv.VERIF_OUT, [format |-> "TXT", charset |-> "UTF-8", openOptions |-> <<"WRITE", "CREATE", "APPEND">>]).exitValue = 0
 =============================================================================
